@@ -258,6 +258,7 @@ def main():
         nmis = 0
         states, trans = res.distinct, res.generated
         traces_ok = 0
+        distinct_orders = 0
         flav = set()
         used_aio = 0
         for bname, bdir in builds.items():
@@ -282,12 +283,18 @@ def main():
                     used_aio += r["used_aio"]
             if len(traces) != len(cases):
                 raise MachineryError("%d traces for %d cases" % (len(traces), len(cases)))
-            ids = sorted(traces)
-            hs2, res2 = run_spec([{"prog": cases[i]["prog"], "trace": traces[i]} for i in ids], sc, "traces-%s.json" % bname)
+            groups = {}         # runs of one program that showed the same step order are validated once
+            for i in sorted(traces):
+                groups.setdefault((i // len(seeds), json.dumps(traces[i])), []).append(i)
+            reps = sorted(g[0] for g in groups.values())
+            hs2, res2 = run_spec([{"prog": cases[i]["prog"], "trace": traces[i]} for i in reps], sc, "traces-%s.json" % bname)
             states += res2.distinct
             trans += res2.generated
-            accepted = {ids[h["pid"] - 1] for h in hs2 if h.get("traced") == 1}
+            ok_reps = {reps[h["pid"] - 1] for h in hs2 if h.get("traced") == 1}
+            accepted = {i for g in groups.values() if g[0] in ok_reps for i in g}
             traces_ok += len(accepted)
+            distinct_orders += len(reps)
+            ids = sorted(traces)
             alarm2 = sat.model_alarm(res2)
             for i in ids:
                 if i not in accepted and i not in failed:
@@ -312,7 +319,7 @@ def main():
                         for i in (0, len(cases) // 3, len(cases) - 1)],
             "programs": len(progs), "seeds": list(seeds), "runs_per_engine": total, "builds": list(builds),
             "states_free_exploration": res.distinct, "features": feats, "root_exit_paths": exits,
-            "realisations": sorted(flav), "explicit_asyncio_fn_runs": used_aio,
+            "realisations": sorted(flav), "distinct_step_orders_validated": distinct_orders, "explicit_asyncio_fn_runs": used_aio,
             "model_invariants": ["InFragment", "SameOutcome", "AwaitedToCompletion", "ModeConfined", "SyncRefused"],
             "model_ok": res.ok, "mismatching_cases": nmis, "violation_signatures": sigs,
             "evaluations": total * 2, "distinct_nontrivial": nontriv,
